@@ -29,7 +29,7 @@ ASSUMPTIONS = [
   "compared with the model after every transition",
 ]
 
-KEYS = ["a", "b", "c", "d", "e", "f"]
+KEYS = ["lo", "ol", "l", "k10", "k1", "o"]       # strings are iterable: a key is ONE key, never its characters
 VALS = [1, 2, 3, 1.0]           # 1.0 == 1: equal value, different object
 
 
@@ -268,7 +268,7 @@ def run_mkd(case):
 
 
 # ---------------------------------------------------------- StrategyDict
-NAMES = ["a", "b", "c", "d"]
+NAMES = ["lo", "ol", "l", "k10"]
 
 
 def _mk_funcs():
